@@ -275,60 +275,100 @@ func matcherFieldLoad(v ssa.Value) string {
 func rulePushdown(p *core.Program) []core.Obligation {
 	const rule = "R-PUSHDOWN"
 	var obs []core.Obligation
-	fn := p.Func("logicalplan", "traverseBottomUp")
-	if fn == nil {
+	root := p.Func("logicalplan", "traverseBottomUp")
+	if root == nil {
 		return []core.Obligation{core.Ob(rule, "logicalplan.traverseBottomUp", "-", "", core.Lost, "not found")}
 	}
-	var transform *ssa.Parameter
-	for _, pr := range fn.Params {
-		if _, ok := pr.Type().Underlying().(*types.Signature); ok {
-			transform = pr
-		}
-	}
-	k := 0
-	core.EachInstr(fn, func(b *ssa.BasicBlock, i int, ins ssa.Instruction) {
-		ret, ok := ins.(*ssa.Return)
-		if !ok || len(ret.Results) != 1 {
+	// the traversal family: traverseBottomUp and the functions of the package it is split into (same shape:
+	// two expression slots in, a verdict out)
+	family := map[*ssa.Function]bool{}
+	var order []*ssa.Function
+	var add func(f *ssa.Function)
+	add = func(f *ssa.Function) {
+		if f == nil || f.Blocks == nil || family[f] || f.Pkg != root.Pkg {
 			return
 		}
-		k++
-		key := fmt.Sprintf("logicalplan.traverseBottomUp return #%d", k)
-		okAll, why := true, ""
-		seen := map[ssa.Value]bool{}
-		var check func(v ssa.Value)
-		check = func(v ssa.Value) {
-			if seen[v] {
+		nptr := 0
+		for _, pr := range f.Params {
+			if isExprPtr(pr.Type()) {
+				nptr++
+			}
+		}
+		res := f.Signature.Results()
+		if nptr < 2 || res.Len() != 1 || !types.Identical(res.At(0).Type(), types.Typ[types.Bool]) {
+			return
+		}
+		family[f] = true
+		order = append(order, f)
+		core.EachInstr(f, func(_ *ssa.BasicBlock, _ int, ins ssa.Instruction) {
+			if c, ok := ins.(*ssa.Call); ok {
+				add(c.Call.StaticCallee())
+			}
+		})
+	}
+	add(root)
+	k := 0
+	for _, fn := range order {
+		var callbacks []*ssa.Parameter
+		for _, pr := range fn.Params {
+			if _, ok := pr.Type().Underlying().(*types.Signature); ok {
+				callbacks = append(callbacks, pr)
+			}
+		}
+		f := fn
+		core.EachInstr(fn, func(b *ssa.BasicBlock, i int, ins ssa.Instruction) {
+			ret, ok := ins.(*ssa.Return)
+			if !ok || len(ret.Results) != 1 {
 				return
 			}
-			seen[v] = true
-			switch x := v.(type) {
-			case *ssa.Const:
-				if x.Value == nil || x.Value.String() != "true" {
-					okAll, why = false, "returns the constant false for a node it did not examine"
-				}
-			case *ssa.Phi:
-				for _, e := range x.Edges {
-					check(e)
-				}
-			case *ssa.BinOp:
-				check(x.X)
-				check(x.Y)
-			case *ssa.Call:
-				if x.Call.StaticCallee() == fn || (transform != nil && x.Call.Value == ssa.Value(transform)) {
+			k++
+			key := fmt.Sprintf("logicalplan.traverseBottomUp return #%d", k)
+			okAll, why := true, ""
+			seen := map[ssa.Value]bool{}
+			var check func(v ssa.Value)
+			check = func(v ssa.Value) {
+				if seen[v] {
 					return
 				}
-				okAll, why = false, "returns the result of "+core.CalleeName(&x.Call)
-			default:
-				okAll, why = false, fmt.Sprintf("returns a %T", v)
+				seen[v] = true
+				switch x := v.(type) {
+				case *ssa.Const:
+					if x.Value == nil || x.Value.String() != "true" {
+						okAll, why = false, "returns the constant false for a node it did not examine"
+					}
+				case *ssa.Phi:
+					for _, e := range x.Edges {
+						check(e)
+					}
+				case *ssa.BinOp:
+					check(x.X)
+					check(x.Y)
+				case *ssa.Call:
+					if family[x.Call.StaticCallee()] {
+						return
+					}
+					for _, cb := range callbacks {
+						if x.Call.Value == ssa.Value(cb) {
+							return
+						}
+						// the callback converted to a named func type first: bottomUpTransform(transform).visit(...)
+						if ct, ok := x.Call.Value.(*ssa.ChangeType); ok && ct.X == ssa.Value(cb) {
+							return
+						}
+					}
+					okAll, why = false, "returns the result of "+core.CalleeName(&x.Call)
+				default:
+					okAll, why = false, fmt.Sprintf("returns a %T", v)
+				}
 			}
-		}
-		check(core.RetResults(ret)[0])
-		if okAll {
-			obs = append(obs, core.Ob(rule, key, p.Pos(ret.Pos()), core.FuncName(fn), core.Held, "true, or the verdict of transform / a recursive traversal"))
-		} else {
-			obs = append(obs, core.Ob(rule, key, p.Pos(ret.Pos()), core.FuncName(fn), core.Violated, why+": the parent (e.g. histogram_quantile over a selector) is then pushed down whole and evaluated on partial data by every remote engine"))
-		}
-	})
+			check(core.RetResults(ret)[0])
+			if okAll {
+				obs = append(obs, core.Ob(rule, key, p.Pos(ret.Pos()), core.FuncName(f), core.Held, "true, or the verdict of transform / a recursive traversal"))
+			} else {
+				obs = append(obs, core.Ob(rule, key, p.Pos(ret.Pos()), core.FuncName(f), core.Violated, why+": the parent (e.g. histogram_quantile over a selector) is then pushed down whole and evaluated on partial data by every remote engine"))
+			}
+		})
+	}
 	return obs
 }
 
